@@ -6,7 +6,7 @@
    records = owner,type,class,ttl,rdatahex joined by ';'   ('-' = none)
    L result: for (unchecked, search_below_cuts) in ff, ft, tf, tt: one segment per qtype (lookup),
    then lookup_addrs, then lookup_all; segments joined by ' / '.  The spec column reports names
-   lower-cased and prints '*' where the spec requires nothing (unchecked lookup outside the zone). *)
+   as the zone spells them and prints '*' where the spec requires nothing (unchecked lookup outside the zone). *)
 open Qvutil
 module Z = ZoneTree
 module S = ZoneLookupS
@@ -87,9 +87,11 @@ let op_lookup apex cls recs_s qn_s qtys_s =
             show_res show_all (Z.zone_lookup_all z qn u s) ]) bools) in
   let spec =
     String.concat " / " (Stdlib.List.concat_map (fun (u, s) ->
-      Stdlib.List.map (fun ty -> show_spec show_lookup (S.spec_lookup req a c acc qn ty u s)) qtys
-      @ [ show_spec show_addrs (S.spec_lookup_addrs req a c acc qn u s);
-          show_spec show_all (S.spec_lookup_all req a c acc qn u s) ]) bools) in
+      (* the specification's answer, its names spelled as the zone spells them (c06_lookup_exact) *)
+      Stdlib.List.map (fun ty -> show_spec show_lookup
+          (Option.map (S.spell_lookup a acc) (S.spec_lookup req a c acc qn ty u s))) qtys
+      @ [ show_spec show_addrs (Option.map (S.spell_addrs a acc) (S.spec_lookup_addrs req a c acc qn u s));
+          show_spec show_all (Option.map (S.spell_all a acc) (S.spec_lookup_all req a c acc qn u s)) ]) bools) in
   model ^ " | " ^ spec
 
 let sorted l = Stdlib.List.sort compare l
@@ -111,11 +113,13 @@ let show_state_model (z : Z.zone) =
 let show_state_spec a c (acc : Z.record list) =
   let la = S.lc a in
   let names = uniq (la :: Stdlib.List.concat_map (fun r -> S.spec_nodes_of a r) acc) in
+  (* names printed as the zone spells them (c20_iter_names_spelled) *)
+  let sp n = show_name (S.spelled a acc n) in
   let nodes = sorted (Stdlib.List.map (fun n ->
-      Printf.sprintf "%s[%s]" (show_name n) (String.concat "|" (Stdlib.List.map show_rrset (S.spec_rrsets req c acc n))))
+      Printf.sprintf "%s[%s]" (sp n) (String.concat "|" (Stdlib.List.map show_rrset (S.spec_rrsets req c acc n))))
       names) in
   let rrs = sorted (Stdlib.List.concat_map (fun n ->
-      Stdlib.List.map (fun r -> Printf.sprintf "%s:%s" (show_name n) (show_rrset r)) (S.spec_rrsets req c acc n))
+      Stdlib.List.map (fun r -> Printf.sprintf "%s:%s" (sp n) (show_rrset r)) (S.spec_rrsets req c acc n))
       names) in
   Printf.sprintf "N{%s} R{%s} S%s T%s" (String.concat ";" nodes) (String.concat ";" rrs)
     (show_opt show_single (S.single_of req c acc la (n_of_int 6)))
